@@ -50,6 +50,12 @@ MUTS = {
  "c17_budget_nolock": ("src/redress/budget.py", "        now = time.monotonic()\n        with self._lock:\n            self._prune(now)\n            if len(self._events) + cost", "        now = time.monotonic()\n        if True:\n            self._prune(now)\n            if len(self._events) + cost"),
  "c17_reentry_deadlock": ("src/redress/circuit.py", "        with self._lock:\n            if self._state is CircuitState.HALF_OPEN:\n                self._probe_in_flight = False", "        with self._lock:\n            if self.state is CircuitState.HALF_OPEN:\n                self._probe_in_flight = False"),
  "c17_read_before_lock": ("src/redress/circuit.py", "        now = self._clock()\n        with self._lock:\n            if self._state is CircuitState.HALF_OPEN:\n                self._state = CircuitState.OPEN", "        now = self._clock()\n        half = self._state is CircuitState.HALF_OPEN\n        with self._lock:\n            if half:\n                self._state = CircuitState.OPEN"),
+ "c19_5xx_le": ("src/redress/classify.py", "        if 500 <= code < 600:", "        if 500 <= code <= 600:"),
+ "c19_http_599": ("src/redress/extras/http.py", "    if 500 <= status < 600:", "    if 500 <= status < 599:"),
+ "c19_names_first": ("src/redress/classify.py", "    code = getattr(err, \"status\", None) or getattr(err, \"code\", None)\n", "    code = getattr(err, \"status\", None) or getattr(err, \"code\", None)\n    if use_name_heuristics and \"timeout\" in type(err).__name__.lower():\n        return ErrorClass.TRANSIENT\n"),
+ "c19_int_coerce": ("src/redress/classify.py", "    if isinstance(code, int):", "    if isinstance(code, str) and code.isdigit():\n        code = int(code)\n    if code is not None and int(code) == code:"),
+ "c19_sql_28": ("src/redress/extras/sqlstate.py", "    if code.startswith(\"28\"):", "    if code.startswith(\"28\") and code != \"28P01\":"),
+ "c19_urllib3_nofallback": ("src/redress/extras/urllib3.py", "return default_classifier(exc)", "return ErrorClass.UNKNOWN"),
  "c10_prune_lt": ("src/redress/budget.py", "self._events[0] <= cutoff", "self._events[0] < cutoff"),
  "c10_cap_ge": ("src/redress/budget.py", "if len(self._events) + cost > self.max_retries:", "if len(self._events) + cost >= self.max_retries:"),
 }
